@@ -25,6 +25,7 @@ materializing the defaulted values can make the configuration archive somewhat
 more hermetic.
 """
 
+import dataclasses
 from typing import Any
 
 from fiddle._src import config
@@ -52,8 +53,23 @@ def materialize_defaults(value: Any) -> None:
 
   def traverse(node, state: daglish.State):
     if isinstance(node, config.Buildable):
-      for arg in node.__signature_info__.parameters.values():
-        if arg.default is not arg.empty and arg.name not in node.__arguments__:
+      parameters = node.__signature_info__.parameters.values()
+      for index, arg in enumerate(parameters):
+        if arg.default is arg.empty:
+          continue
+        if dataclasses.is_dataclass(
+            node.__fn_or_cls__
+        ) and config._field_uses_default_factory(  # pylint: disable=protected-access
+            node.__fn_or_cls__, arg.name
+        ):
+          # The signature's default is a sentinel standing for the factory,
+          # not a value: leave it to the dataclass to call the factory.
+          continue
+        if arg.kind == arg.POSITIONAL_ONLY:
+          # Positional-only arguments are stored (and set) by index.
+          if index not in node.__arguments__:
+            node[index] = arg.default
+        elif arg.name not in node.__arguments__:
           setattr(node, arg.name, arg.default)
     for _ in state.yield_map_child_values(node, ignore_leaves=True):
       pass  # Run lazy iterator.
